@@ -46,10 +46,12 @@
    those globals, in REPL mode and in file mode, statement after statement
    ([C01_statement_sessions_partial]).  Missing for the full statement:
    calls, generators, locals and closures, output. *)
+Require Calc.LExprCorrect.
+Require Import Lia.
 Require Import Calc.Base Calc.Bytecode Calc.Value Calc.FloatText Calc.Ast Calc.Resolve Calc.Compile
         Calc.VM Calc.Sem Calc.Session Calc.CorrSession Calc.SemSession Calc.SemProofs
         Calc.ExprSem Calc.ExprVM Calc.ExprCorrect Calc.ExprTop Calc.ExprAssign Calc.ExprLen Calc.ExprSession
-        Calc.StmtSem Calc.StmtRel Calc.StmtVM Calc.StmtCorrect Calc.StmtTop.
+        Calc.LExprSem Calc.StmtSem Calc.StmtRel Calc.StmtVM Calc.StmtCorrect Calc.StmtTop Calc.StmtCheck.
 Open Scope Z_scope.
 
 (* ---- the full statement (open) ---- *)
@@ -252,7 +254,7 @@ Theorem C01_statement_run : forall Bf t s s' v c m n G' res,
   wstmt t = true -> wfcs s -> idle v s c m -> bcode Bf (load_code v s) ->
   ByteCode t s = CompOk s' ->
   ssem Bf n (wof v) t = Some (G', res) ->
-  wfcs s' /\ (exists code, rcs s' = rev code ++ rcs s) /\
+  wfcs s' /\ (exists code, lay s s' code) /\
   exists k, forall fuel,
     ((fuel <= k)%nat -> snd (Run fuel (load_code v s') true) = RFuel \/
                         match res with
@@ -350,8 +352,11 @@ Qed.
    names only to call them (nobs), worlds that agree everywhere else give the same value or error and
    stay in agreement: same global data, same output (the same lines added to whatever the two sides had
    written before, o1 and o2; [] [] : the same output altogether), same input left. *)
-Theorem C01_statement_worlds_related : forall Bf1 Bf2 o1 o2 n t W1 W2 W1' r,
-  wstmt t = true -> nobs t = true -> wrel Bf1 Bf2 o1 o2 W1 W2 ->
+Theorem C01_statement_worlds_related : forall Bf1 Bf2,
+  (forall nm, ft_body Bf1 nm = ft_body Bf2 nm) ->
+  (forall nm body, ft_body Bf1 nm = Some body -> nobe Bf1 body = true) ->
+  forall o1 o2 n t W1 W2 W1' r,
+  wstmt t = true -> nobs Bf1 t = true -> wrel Bf1 Bf2 o1 o2 W1 W2 ->
   ssem Bf1 n W1 t = Some (W1', r) ->
   exists W2', ssem Bf2 n W2 t = Some (W2', r) /\ wrel Bf1 Bf2 o1 o2 W1' W2'.
 Proof. exact ssem_related. Qed.
@@ -361,7 +366,9 @@ Print Assumptions C01_statement_worlds_related.
    gives the statement a meaning with fuel n, Sem.eval returns it, and — with enough steps — Run returns
    the same value or error class and leaves a related world *)
 Theorem C01_statement_sem_vs_vm : forall Bf1 Bf2 t s s' v c m n env st W1' res,
-  wstmt t = true -> nobs t = true -> wfcs s -> idle v s c m ->
+  (forall nm, ft_body Bf1 nm = ft_body Bf2 nm) ->
+  (forall nm body, ft_body Bf1 nm = Some body -> nobe Bf1 body = true) ->
+  wstmt t = true -> nobs Bf1 t = true -> wfcs s -> idle v s c m ->
   sem_bf Bf1 st -> bcode Bf2 (load_code v s) -> wrel Bf1 Bf2 [] [] (wof_s st) (wof v) ->
   ByteCode t s = CompOk s' ->
   ssem Bf1 n (wof_s st) t = Some (W1', res) ->
@@ -373,9 +380,9 @@ Theorem C01_statement_sem_vs_vm : forall Bf1 Bf2 t s s' v c m n env st W1' res,
     | Fail _ => True
     end.
 Proof.
-  intros Bf1 Bf2 t s s' v c m n env st W1' res Hw Hn Hwf Hid Hsb Hbc HR HB HM. split.
+  intros Bf1 Bf2 t s s' v c m n env st W1' res Hbody Hnob Hw Hn Hwf Hid Hsb Hbc HR HB HM. split.
   - destruct (eval_stmt Bf1 n t Hw env st W1' res Hsb HM) as (st' & E & HW & _). eauto.
-  - destruct (ssem_related Bf1 Bf2 [] [] n t _ _ W1' res Hw Hn HR HM) as (W2' & HM2 & HR').
+  - destruct (ssem_related Bf1 Bf2 Hbody Hnob [] [] n t _ _ W1' res Hw Hn HR HM) as (W2' & HM2 & HR').
     destruct (bytecode_run_stmt Bf2 t s s' v c m n W2' res Hw Hwf Hid Hbc HB HM2) as [_ [_ [k R]]].
     exists k. intros fuel Hf. specialize (R fuel). destruct R as [_ R]. specialize (R Hf). destruct res as [x|err].
     + destruct R as [v' [m' [R [_ [_ [_ [Hg' _]]]]]]]. rewrite R. split; [reflexivity|]. cbn [fst]. rewrite Hg'. exact HR'.
@@ -386,12 +393,13 @@ Print Assumptions C01_statement_sem_vs_vm.
 (* ---- user-level calls of the built-ins: write(e), toa(e), aton(e) ---- *)
 (* the machine of a session has the built-ins loaded: its own bindings of the built-in names are a Bf
    for which the premises of the session theorem hold *)
-Definition vm_bf (nm : string) : value := gval (v_globals (mc_vm mc_after_first)) nm.
+Definition vm_bf : ftab :=
+  {| ft_val := fun nm => gval (v_globals (mc_vm mc_after_first)) nm; ft_body := fun _ => None |}.
 
 Example C01_builtin_premises_hold : exists c m, bready vm_bf mc_after_first c m.
 Proof.
   destruct C01_demo_session_is_covered as [[c [m Hr]] _]. exists c, m. split; [exact Hr|].
-  apply bcode_b_sound. vm_compute. reflexivity.
+  apply bcode_b_sound; [vm_compute; reflexivity|]. intros nm body mo fid _ Hb. discriminate Hb.
 Qed.
 
 (* the same machine with two lines of input waiting *)
@@ -429,7 +437,7 @@ Definition demo_io : list node :=
    NList [NName "a"; NName "n"; NName "s"; NName "w"; NName "b"]].
 
 Example C01_demo_io_is_covered :
-  Forall (fun t => wstmt t = true /\ CompileWf.wfb t = true /\ nobs t = true) demo_io /\
+  Forall (fun t => wstmt t = true /\ CompileWf.wfb t = true /\ nobs vm_bf t = true) demo_io /\
   map brief (run_all mc_with_input demo_io) =
   [Some (Ok (VStr "12")); Some (Ok (VInt 12)); Some (Ok (VStr "24")); Some (Ok VNil); Some (Ok (VStr "x y"));
    Some (Fail ErrNil); Some (Fail ErrRead); Some (Ok (VArr [VStr "12"; VInt 12; VStr "24"; VNil; VNil]))] /\
@@ -448,6 +456,113 @@ Example C01_demo_calls_are_covered :
   ["three"; "before"; "4"; "1"; "0"]%string.
 Proof.
   split; [unfold demo_calls; repeat constructor|]. split; vm_compute; reflexivity.
+Qed.
+
+(* ---- expressions of function bodies: pure expressions over local AND global variables ---- *)
+(* LExprCorrect.v: for every expression built from literals, globals, the variables of the running
+   activation (L: the values they hold) and the operators, in every context (selector, flags), the emitted
+   code run by the VM model from any state inside that activation (lfr: its frame holds L and lies below
+   the stack pointer) leaves the value lden computes where the returned operand says — a local variable is
+   an operand read from the frame when its operator runs — and keeps everything below *)
+Theorem C01_body_expression_compiled : forall L e, lpure L e = true ->
+  LExprCorrect.compiles L (Compile.comp e) (fun G => lden L G e).
+Proof. exact LExprCorrect.comp_lpure_spec. Qed.
+Print Assumptions C01_body_expression_compiled.
+
+(* and Sem.eval computes lden in an activation whose frame holds L *)
+Theorem C01_sem_body_expression : forall L e, lpure L e = true -> forall fuel env st, (height e <= fuel)%nat ->
+  frame_holds L st env ->
+  eval fuel e env st = Done st (ctl_of (lden L (s_globals st) e)).
+Proof. exact eval_lpure. Qed.
+Print Assumptions C01_sem_body_expression.
+
+(* a call nm(e) of a user function (not a built-in name): the argument, CALL, the body's code inside the
+   new frame, RET of the body's operand — in every position (C01_statement_compiled has it as a case) *)
+Theorem C01_user_call_compiled : forall Bf nm e d s s' w,
+  bop_of_name nm = None -> pure e = true -> wfcs s ->
+  Compile.comp (NCall (NName nm) [e]) 0 (tfl d) s = COk (w, s') ->
+  SpecS Bf (NCall (NName nm) [e]) d 0 s s' w.
+Proof.
+  intros Bf nm e d s s' w Hb Hp Hwf H.
+  apply (ucall_specS Bf nm e (tfl d) d 0 s s' w Hb Hp ltac:(lia) Hwf eq_refl H).
+Qed.
+Print Assumptions C01_user_call_compiled.
+
+(* ---- calls of user functions: one parameter, the body a pure expression of it and of the globals ---- *)
+Definition def_lim : node := NAssign (NName "lim") (NInt 10).
+Definition def_sq : node := NAssign (NName "sq") (NFunction [NName "x"] (NBin "*" (NName "x") (NName "x")) 0).
+Definition def_big : node :=
+  NAssign (NName "big") (NFunction [NName "v"] (NList [NBin ">" (NName "v") (NName "lim"); NUn "-" (NName "v")]) 0).
+
+(* the machine after the three definitions *)
+Definition mc_defs : machine := end_of mc_after_first [def_lim; def_sq; def_big].
+
+Definition sq_body : node := NBin "*" (NLocal 0 "x") (NLocal 0 "x").
+Definition big_body : node := NList [NBin ">" (NLocal 0 "v") (NName "lim"); NUn "-" (NLocal 0 "v")].
+
+Definition user_bf : ftab :=
+  {| ft_val := fun nm => gval (v_globals (mc_vm mc_defs)) nm;
+     ft_body := fun nm => if String.eqb nm "sq" then Some sq_body else if String.eqb nm "big" then Some big_body else None |}.
+
+(* the flags a function body is compiled with when the definition is a top-level assignment *)
+Definition body_flags : flags :=
+  withReturning true (withInFunc true (withOpDepth 0 (withForbidTemp false (withInFor false
+    (pass (withAcceptTemp true (pass (pass fl0)))))))).
+
+(* the premises of the session theorem hold on that machine: it is ready, the built-ins and the two user
+   functions lie where the table says — established by computation through the sound checkers *)
+Example C01_user_function_premises_hold : exists c m, bready user_bf mc_defs c m.
+Proof.
+  destruct (ready_b_sound mc_defs) as [c [m Hr]]; [vm_compute; reflexivity|].
+  exists c, m. split; [exact Hr|].
+  apply bcode_b_sound; [vm_compute; reflexivity|].
+  intros nm body mo fid Hb Hbody Hbf. cbn [user_bf ft_body] in Hbody.
+  destruct (String.eqb_spec nm "sq") as [->|_].
+  - injection Hbody as <-.
+    apply (ufun_facts_sound _ _ _ (emitted (mc_cs (end_of mc_after_first [def_lim])) (New JMP)) body_flags).
+    eexists; eexists; eexists; eexists; eexists.
+    split; [vm_compute; reflexivity|]. split; [vm_compute; reflexivity|]. split; [vm_compute; reflexivity|].
+    split; [vm_compute; reflexivity|]. split; [vm_compute; reflexivity|]. split; [vm_compute; reflexivity|].
+    split; [vm_compute; reflexivity|]. split; [vm_compute; reflexivity|]. split; [vm_compute; reflexivity|].
+    split; [vm_compute; reflexivity|]. split; [vm_compute; reflexivity|]. split; vm_compute; reflexivity.
+  - destruct (String.eqb_spec nm "big") as [->|_]; [|discriminate Hbody]. injection Hbody as <-.
+    apply (ufun_facts_sound _ _ _ (emitted (mc_cs (end_of mc_after_first [def_lim; def_sq])) (New JMP)) body_flags).
+    eexists; eexists; eexists; eexists; eexists.
+    split; [vm_compute; reflexivity|]. split; [vm_compute; reflexivity|]. split; [vm_compute; reflexivity|].
+    split; [vm_compute; reflexivity|]. split; [vm_compute; reflexivity|]. split; [vm_compute; reflexivity|].
+    split; [vm_compute; reflexivity|]. split; [vm_compute; reflexivity|]. split; [vm_compute; reflexivity|].
+    split; [vm_compute; reflexivity|]. split; [vm_compute; reflexivity|]. split; vm_compute; reflexivity.
+Qed.
+
+Definition demo_ucalls : list node :=
+  [NCall (NName "sq") [NInt 7];
+   NAssign (NName "y") (NCall (NName "sq") [NBin "+" (NInt 1) (NInt 2)]);
+   NAssign (NName "i") (NInt 0);
+   NWhile (NBin "<" (NName "i") (NInt 3))
+          (NBlock [NAssign (NName "t") (NCall (NName "sq") [NName "i"]);
+                   NCall (NName "write") [NName "t"];
+                   NAssign (NName "i") (NBin "+" (NName "i") (NInt 1))]);
+   NCall (NName "big") [NName "y"];
+   NCall (NName "big") [NInt 11];
+   NCall (NName "sq") [NStr "a"];
+   NAssign (NName "lim") (NInt 100);
+   NCall (NName "big") [NInt 11];
+   NIfElse (NBin "==" (NName "y") (NInt 9)) (NCall (NName "sq") [NName "y"]) (NCall (NName "toa") [NName "y"])].
+
+Example C01_demo_user_calls_are_covered :
+  Forall (fun t => wstmt t = true /\ CompileWf.wfb t = true /\ nobs user_bf t = true) demo_ucalls /\
+  (forall nm body, ft_body user_bf nm = Some body -> nobe user_bf body = true /\ lpure1 body = true) /\
+  map brief (run_all mc_defs demo_ucalls) =
+  [Some (Ok (VInt 49)); Some (Ok (VInt 9)); Some (Ok (VInt 0)); Some (Ok (VInt 3));
+   Some (Ok (VArr [VBool false; VInt (-9)])); Some (Ok (VArr [VBool true; VInt (-11)])); Some (Fail ErrType);
+   Some (Ok (VInt 100)); Some (Ok (VArr [VBool false; VInt (-11)])); Some (Ok (VInt 81))] /\
+  firstn 3 (v_out (mc_vm (end_of mc_defs demo_ucalls))) = ["4"; "1"; "0"]%string.
+Proof.
+  split; [unfold demo_ucalls; repeat constructor|]. split.
+  - intros nm body H. cbn [user_bf ft_body] in H.
+    destruct (String.eqb nm "sq"); [injection H as <-; split; reflexivity|].
+    destruct (String.eqb nm "big"); [injection H as <-; split; reflexivity|discriminate H].
+  - split; vm_compute; reflexivity.
 Qed.
 
 (* ---- proved: the oracle follows the language rules ---- *)
